@@ -3,7 +3,14 @@ package main
 // Facts of parameter negotiation used by C01 (both stacks), beyond preferenceOrder,
 // suiteTable and the Clone field sets that main.go already emits:
 //
-//   negVersions              the `supportedVersions` table
+//   negVersions              the `supportedVersions` table — INFORMATIONAL since the translation tie:
+//                            Config.supportedVersions, Config.mutualVersion, supportedVersionsFromMax,
+//                            negotiateALPN and checkALPN are translated to Lean on every run and
+//                            lean/Gotlcp/Tie/Negotiate.lean proves the translated text equal to the model
+//                            with the literals Model.Negotiate.treeVersions / treeAlpnOuterIsFirstArg.
+//                            negVersions, negAlpnServerFirst and negAlpnFallback are kept as information:
+//                            not used by the model, not pinned by C01_facts, never reported "missing"
+//                            (a renamed local or a re-arranged loop must not fail every property's check)
 //   negAuthIota              numeric values of the six ClientAuthType constants, by name
 //   negRequiresClientCert    the values for which requiresClientCert answers true
 //   negSelectServerFirst     selectCipherSuite walks its first list in the outer loop, looks
@@ -18,6 +25,8 @@ package main
 //   negAlpnServerFirst       negotiateALPN's outer loop is over its first parameter and the
 //                            call site passes (config.NextProtos, clientHello.alpnProtocols)
 //   negAlpnFallback          the (server, client) pair of the fallback rule
+//   negAlpnCallServerFirst   the only caller of negotiateALPN (processClientHello, untranslated) passes
+//                            (c.config.NextProtos, hs.clientHello.alpnProtocols): the server's list first
 //   negEcdheAuthOverride     doFullHandshake (server): under ECDHE every policy but
 //                            RequestClientCert becomes RequireAndVerifyClientCert
 //   negCertReqFromRequest    CertificateRequest is sent iff authPolice >= RequestClientCert
@@ -110,8 +119,10 @@ func emitNegotiate(e *emitter, p *pkg) {
 		return
 	}
 	e.comment("negotiation (C01): handshake_client.go, handshake_server.go, cipher_suites.go, common.go")
-	vs, ok := identList(p, p.vars["supportedVersions"])
-	e.natList("negVersions", vs, ok)
+	// informational since the translation tie (Tie/Negotiate.lean: tie_versions_table_*): [] when the
+	// shape is not recognised, never "missing"
+	vs, _ := identList(p, p.vars["supportedVersions"])
+	e.natList("negVersions", vs, true)
 
 	names := []string{"NoClientCert", "RequestClientCert", "RequireAnyClientCert", "VerifyClientCertIfGiven",
 		"RequireAndVerifyClientCert", "RequireAndVerifyAnyKeyUsageClientCert"}
@@ -278,9 +289,12 @@ func emitNegotiate(e *emitter, p *pkg) {
 		}
 	}
 	aargs := callArgs(p, p.funcs["serverHandshakeState.processClientHello"], "negotiateALPN")
-	alpnFirst = alpnFirst && len(aargs) == 2 && aargs[0] == "c.config.NextProtos" && aargs[1] == "hs.clientHello.alpnProtocols"
-	e.boolean("negAlpnServerFirst", alpnFirst)
+	alpnCall := len(aargs) == 2 && aargs[0] == "c.config.NextProtos" && aargs[1] == "hs.clientHello.alpnProtocols"
+	// the shape of negotiateALPN itself (loop nesting, the fallback literals) is informational since the
+	// translation tie (Tie/Negotiate.lean: tie_negotiateALPN_*); the call site stays a fact
+	e.boolean("negAlpnServerFirst", alpnFirst && alpnCall)
 	e.strList("negAlpnFallback", fallback)
+	e.boolean("negAlpnCallServerFirst", alpnCall)
 
 	// server doFullHandshake: ECDHE override and the request threshold
 	sfh := p.funcs["serverHandshakeState.doFullHandshake"]
